@@ -37,6 +37,8 @@ fixed=[
 ("C11","4c0952c","gridsearch with only NaN scores raised AttributeError ('NoneType' has no get_params) on valid data"),
 ("C11","836f28f","a diverged (non-converged) fit returned finite coef_ but NaN / Inf predictions on its training data"),
 ("C09","ef1c7f7","NaN quantile levels / widths were accepted and produced NaN bounds"),
+("C08","3b6288b","weighted log-likelihood (hence AIC, AICc, McFadden) evaluated partly in float32: 1e-7..1e-6 relative error whenever sample weights were passed"),
+("C11","40fb32b","PoissonGAM.fit / gridsearch with numeric-string or None-containing y: TypeError instead of a cast / ValueError"),
 ("C19","6a443b0","PoissonGAM.gridsearch with exposure/weights != 1: GAM.gridsearch passed weights positionally, PoissonGAM.fit took them as exposure (rates divided twice, candidates unweighted)"),
 ("C10","6a443b0","gridsearch candidate scores of a PoissonGAM with weights differed from an independent fit with those hyper-parameters (same positional-argument defect)"),
 ("C11","c2e8abf","fit_quantile on a fitted model returned without validating y when already within tol"),
